@@ -61,9 +61,37 @@ func term(n *Node, ctx int) string {
 			return "(let " + n.Name + " := " + term(n.Args[0], precLow) + "; " + term(n.Args[1], precLow) + ")"
 		case "need":
 			return term(n.Args[1], ctx)
+		case "ucall":
+			return paren(ucallText(n), precApp, ctx)
+		case "osome":
+			return paren(term(n.Args[0], precAtom)+".isSome", precApp, ctx)
+		case "oany":
+			return paren(term(n.Args[0], precAtom)+".any "+n.Name, precApp, ctx)
 		}
 
 		return paren("decide ("+prop(n, precLow)+")", precApp, ctx)
+	}
+
+	switch n.Op {
+	case "onone":
+		return "none"
+	case "owrap":
+		return paren("some "+term(n.Args[0], precAtom), precApp, ctx)
+	case "ucall":
+		if len(n.Args) == 0 {
+			return n.Name
+		}
+
+		return paren(ucallText(n), precApp, ctx)
+	case "tuple":
+		parts := make([]string, len(n.Args))
+		for i, a := range n.Args {
+			parts[i] = term(a, precLow)
+		}
+
+		return "(" + strings.Join(parts, ", ") + ")"
+	case "slen":
+		return "n"
 	}
 
 	switch n.Op {
@@ -80,6 +108,11 @@ func term(n *Node, ctx int) string {
 	case "min", "max":
 		return paren(n.Op+" "+term(n.Args[0], precAtom)+" "+term(n.Args[1], precAtom), precApp, ctx)
 	case "ite":
+		if effRender {
+			return "(bif " + bterm(n.Args[0], 0) + " then " + term(n.Args[1], precLow) + " else " +
+				term(n.Args[2], precLow) + ")"
+		}
+
 		return "(if " + prop(n.Args[0], precLow) + " then " + term(n.Args[1], precLow) + " else " +
 			term(n.Args[2], precLow) + ")"
 	case "let":
@@ -91,6 +124,15 @@ func term(n *Node, ctx int) string {
 	}
 
 	panic("go2lean: cannot render " + n.Op)
+}
+
+func ucallText(n *Node) string {
+	s := n.Name
+	for _, a := range n.Args {
+		s += " " + term(a, precAtom)
+	}
+
+	return s
 }
 
 func callText(n *Node) string {
@@ -117,9 +159,19 @@ func prop(n *Node, ctx int) string {
 		return n.Name + ".isSome"
 	case "call":
 		return paren(callText(n), precApp, ctx)
+	case "ucall":
+		return paren(ucallText(n), precApp, ctx)
+	case "osome":
+		return paren(term(n.Args[0], precAtom)+".isSome", precApp, ctx)
+	case "oany":
+		return paren(term(n.Args[0], precAtom)+".any "+n.Name, precApp, ctx)
 	case "not":
 		if n.Args[0].Op == "some" {
 			return n.Args[0].Name + ".isNone"
+		}
+
+		if n.Args[0].Op == "osome" {
+			return paren(term(n.Args[0].Args[0], precAtom)+".isNone", precApp, ctx)
 		}
 
 		return paren("¬ "+prop(n.Args[0], precNot+1), precNot, ctx)
@@ -232,4 +284,250 @@ func conjuncts(n *Node) string {
 	parts = append(parts, prop(n, precAnd))
 
 	return "decide (\n      " + strings.Join(parts, " ∧\n      ") + ")"
+}
+
+// ---------------------------------------------------------------------------------------------------------------
+// definitions with effects
+
+// effRender: a definition with effects is being rendered (conditions are `Bool`, `if` is `bif`)
+var effRender bool
+
+const (
+	bprecOr  = 30
+	bprecAnd = 35
+	bprecNot = 100
+)
+
+// bterm renders a boolean expression as a `Bool` term (`&&`, `||`, `!`, `decide (a < b)`): the conditions of
+// definitions with effects are `bif … then … else` on Bool, which carries no `Decidable` instance that rewriting
+// could leave behind
+func bterm(n *Node, ctx int) string {
+	par := func(s string, mine int) string {
+		if mine < ctx {
+			return "(" + s + ")"
+		}
+
+		return s
+	}
+
+	switch n.Op {
+	case "blit":
+		if n.Val != 0 {
+			return "true"
+		}
+
+		return "false"
+	case "var":
+		return n.Name
+	case "not":
+		if n.Args[0].Op == "osome" {
+			return par(term(n.Args[0].Args[0], precAtom)+".isNone", bprecNot)
+		}
+
+		return par("!"+bterm(n.Args[0], bprecNot), bprecNot)
+	case "and":
+		return par(bterm(n.Args[0], bprecAnd+1)+" && "+bterm(n.Args[1], bprecAnd), bprecAnd)
+	case "or":
+		return par(bterm(n.Args[0], bprecOr+1)+" || "+bterm(n.Args[1], bprecOr), bprecOr)
+	case "lt", "le", "gt", "ge", "eq", "ne", "beq", "bne":
+		return par("decide ("+prop(n, precLow)+")", bprecNot)
+	case "need":
+		return bterm(n.Args[1], ctx)
+	}
+
+	return par(term(n, precApp), bprecNot)
+}
+
+func simpleEff(n *Node) bool {
+	switch n.Op {
+	case "let", "ite", "bind", "need":
+		return false
+	}
+
+	return true
+}
+
+func (d *Def) leafEff(n *Node) string {
+	switch n.Op {
+	case "ret":
+		return "Go.pure " + term(n.Args[0], precAtom)
+	case "gopanic":
+		return "Go.panic " + n.Name
+	case "loopcall":
+		s := n.Loop.Name + d.fixedArgs(n.Loop)
+		for _, a := range n.Args {
+			s += " " + term(a, precAtom)
+		}
+
+		return s
+	}
+
+	return term(n, precLow)
+}
+
+func (d *Def) bodyEff(n *Node, ind string, sb *strings.Builder) {
+	switch n.Op {
+	case "need":
+		sb.WriteString(ind + "bif " + bterm(Not(n.Args[0]), 0) + " then Go.panic " + d.Fam.NilPanic + " else\n")
+		d.bodyEff(n.Args[1], ind, sb)
+	case "let":
+		ty := ""
+		if v := n.Args[0]; v.K == KOpt || v.K == KOpq {
+			ty = " : " + v.Spec().Lean()
+		}
+
+		val := term(n.Args[0], precLow)
+		if n.Args[0].K == KBool {
+			val = bterm(n.Args[0], 0)
+		}
+
+		sb.WriteString(ind + "let " + n.Name + ty + " := " + val + "\n")
+		d.bodyEff(n.Args[1], ind, sb)
+	case "bind":
+		pat := n.Names[0]
+		if len(n.Names) > 1 {
+			pat = "(" + strings.Join(n.Names, ", ") + ")"
+		}
+
+		if n.Eff {
+			sb.WriteString(ind + "Go.bind " + term(n.Args[0], precAtom) + " fun " + pat + " =>\n")
+		} else {
+			sb.WriteString(ind + "let " + pat + " := " + term(n.Args[0], precLow) + "\n")
+		}
+
+		d.bodyEff(n.Args[1], ind, sb)
+	case "ite":
+		c := bterm(n.Args[0], 0)
+
+		short := func(x *Node) bool { return simpleEff(x) && len(d.leafEff(x)) <= 40 }
+
+		switch {
+		case short(n.Args[1]):
+			sb.WriteString(ind + "bif " + c + " then " + d.leafEff(n.Args[1]) + " else\n")
+			d.bodyEff(n.Args[2], ind, sb)
+		case short(n.Args[2]) && !simpleEff(n.Args[1]):
+			sb.WriteString(ind + "bif " + bterm(Not(n.Args[0]), 0) + " then " + d.leafEff(n.Args[2]) + " else\n")
+			d.bodyEff(n.Args[1], ind, sb)
+		default:
+			sb.WriteString(ind + "bif " + c + " then\n")
+			d.bodyEff(n.Args[1], ind+"  ", sb)
+			sb.WriteString(ind + "else\n")
+			d.bodyEff(n.Args[2], ind+"  ", sb)
+		}
+	default:
+		sb.WriteString(ind + d.leafEff(n) + "\n")
+	}
+}
+
+func (d *Def) listParams() map[string]bool {
+	out := map[string]bool{}
+	for _, sp := range d.Fam.Slices {
+		out[sp.List] = true
+	}
+
+	return out
+}
+
+// fixedArgs: what a loop function receives unchanged in every call
+func (d *Def) fixedArgs(l *LoopDef) string {
+	lists := d.listParams()
+	s := ""
+
+	for _, p := range d.Params {
+		if !lists[p.Name] {
+			s += " " + p.Name
+		}
+	}
+
+	s += " n"
+
+	for _, e := range l.Extra {
+		s += " " + e.Name
+	}
+
+	return s
+}
+
+func (d *Def) typeVars() string {
+	if len(d.Fam.TypeVars) == 0 {
+		return ""
+	}
+
+	return " {" + strings.Join(d.Fam.TypeVars, " ") + " : Type}"
+}
+
+// LeanEff renders a function with effects: its loops (structurally recursive over the list), then the function.
+func (d *Def) LeanEff() string {
+	var sb strings.Builder
+
+	effRender = true
+	defer func() { effRender = false }()
+
+	lists := d.listParams()
+
+	for _, l := range d.Loops {
+		sb.WriteString("/-- a `for … range` loop of `" + d.GoName + "`: `[]` = the slice is exhausted (the code after the loop), " +
+			"`" + l.Elem + " :: " + l.Rest + "` = the loop body on the next element -/\n")
+		sb.WriteString("def " + l.Name + d.typeVars())
+
+		for _, p := range d.Params {
+			if !lists[p.Name] {
+				sb.WriteString(" (" + p.Name + " : " + p.Type + ")")
+			}
+		}
+
+		sb.WriteString(" (n : Int)")
+
+		for _, e := range l.Extra {
+			sb.WriteString(" (" + e.Name + " : " + e.Type.Lean() + ")")
+		}
+
+		sb.WriteString(" :\n    ")
+
+		var pats []string
+
+		if l.Idx != "" {
+			sb.WriteString("Int → ")
+			pats = append(pats, l.Idx)
+		}
+
+		sb.WriteString("List " + l.ElemT + " → ")
+
+		var carried []string
+		for _, c := range l.Carried {
+			sb.WriteString(c.Type.Lean() + " → ")
+			carried = append(carried, c.Name)
+		}
+
+		sb.WriteString(d.ResType + "\n")
+
+		head := func(list string) string {
+			return "  | " + strings.Join(append(append(append([]string{}, pats...), list), carried...), ", ") + " =>\n"
+		}
+
+		sb.WriteString(head("[]"))
+		d.bodyEff(l.Nil, "    ", &sb)
+		sb.WriteString(head(l.Elem + " :: " + l.Rest))
+		d.bodyEff(l.Cons, "    ", &sb)
+		sb.WriteString("\n")
+	}
+
+	sb.WriteString("/-- `" + d.GoName + "`, " + d.Pos + " -/\n")
+	sb.WriteString("def " + d.Target.Lean + d.typeVars())
+
+	for _, p := range d.Params {
+		sb.WriteString(" (" + p.Name + " : " + p.Type + ")")
+	}
+
+	sb.WriteString(" :\n    " + d.ResType + " :=\n")
+
+	for _, sp := range d.Fam.Slices {
+		if len(d.Loops) > 0 {
+			sb.WriteString("  let n : Int := " + sp.List + ".length\n")
+		}
+	}
+
+	d.bodyEff(d.Body, "  ", &sb)
+
+	return sb.String()
 }
